@@ -426,7 +426,7 @@ func (m *Monitors) pollExec(a *Actor) {
 // awaitingCmds) must have recorded its outcome before the monitor looks at the outcome list.
 func (m *Monitors) settle() {
 	f := m.c.cmd
-	deadline := time.Now().Add(10 * time.Second)
+	deadline := time.Now().Add(60 * time.Second)
 	for _, a := range m.c.Actors {
 		if a.CIO == nil {
 			continue
